@@ -101,6 +101,8 @@ pub struct Partial {
     pub samples: Vec<Value>,
     /// distinct-case fingerprints (merged as a set by the parent)
     pub distinct: BTreeSet<String>,
+    /// free-form facts for cross-worker oracles (merged as a set by the parent)
+    pub facts: BTreeSet<String>,
     pub notes: Vec<String>,
 }
 
@@ -155,6 +157,7 @@ impl Partial {
             self.sample(s);
         }
         self.distinct.extend(o.distinct);
+        self.facts.extend(o.facts);
         self.notes.extend(o.notes);
     }
     pub fn to_json(&self) -> Value {
@@ -163,6 +166,7 @@ impl Partial {
             "violations": self.violations.iter().map(|v| json!({"signature": v.signature, "what": v.what, "replay": v.replay})).collect::<Vec<_>>(),
             "samples": self.samples,
             "distinct": self.distinct,
+            "facts": self.facts,
             "notes": self.notes,
         })
     }
@@ -184,6 +188,11 @@ impl Partial {
         for x in v["distinct"].as_array().cloned().unwrap_or_default() {
             if let Some(s) = x.as_str() {
                 p.distinct.insert(s.to_string());
+            }
+        }
+        for x in v["facts"].as_array().cloned().unwrap_or_default() {
+            if let Some(s) = x.as_str() {
+                p.facts.insert(s.to_string());
             }
         }
         for x in v["notes"].as_array().cloned().unwrap_or_default() {
